@@ -61,6 +61,28 @@
  * received again unchanged") are violated by the same event.  Keys, minimal
  * histories and proposed patches: mutants/C13/README.md.
  *
+ * Channel-switch countdown (phase pal-gap: VPS A, VPS B, Teletext page 201, letter
+ * "gap" = the next frame carries a timestamp jump of +1 s, letter "45 regular
+ * empty frames"): reference model in frame().  A timestamp step outside 25..50 ms
+ * arms 40 regular frames; an identified station change ends the countdown (that
+ * is what vbi_chsw_reset() does and the only thing demanded here: a first
+ * identification or the same station confirmed again after the gap do NOT end it
+ * in the decoder, see the outcome labels); when it runs out: exactly one
+ * NETWORK with an all-zero vbi_network if a station was identified, pages
+ * dropped.  Any other all-zero NETWORK is a violation ("NETWORK event with nuid 0
+ * and no identifier although no channel-switch countdown is pending [...]").  Page
+ * 201 (magazine 2, parallel mode, > 199) is no rolling header and does not end the
+ * countdown; vbi_is_cached() is observed after every letter (no probe letter).
+ *
+ * Violation keys of the CNI carriers carry a cause class computed from the
+ * history alone: "[another CNI carrier received since this carrier's last
+ * announcement]" (or since the start of the history when it was never announced;
+ * CNI carriers: VPS, 8/30-1, 8/30-2) versus "[single carrier since its last
+ * announcement]"; "more than one NETWORK event" carries "[confirmed CNI is not in
+ * the station table (nuid 0)]" versus "[... is a table station]"; XDS keys end in
+ * "[XDS]".  The known findings (shared network.cycle, vbi_chsw_reset(vbi, 0) on an
+ * unknown CNI) exist only in the first class of each pair.
+ *
  * Deviations from DESIGN.md C13:
  *   - VBI_EVENT_NETWORK documents that VPS/Teletext and XDS identifiers "will not
  *     combine in real life, feeding the decoder with artificial data can confuse
@@ -69,8 +91,8 @@
  *   - the alphabet is explored in three PAL sub-alphabets (all 18 letters shallow,
  *     CNI carriers without WSS deeper, WSS + two VPS stations deepest) because WSS
  *     needs >= 4 letters per announcement and multiplies the state space.
- *   - chswcd stays 0: no frame-drop letter (the property does not mention it);
- *     every frame advances time by 0.04 s.
+ *   - frame drops only in the dedicated phase pal-gap; elsewhere every frame
+ *     advances time by 0.04 s and chswcd stays 0.
  *   - time() is not reached from vbi_decode() on these paths (only pdc.c PIL
  *     conversion calls it), so no --wrap=time is needed.
  *   - CNI 0xDC3 (VPS) / 0x0DC3 (8/30-2) is skipped in the flat phases: the
@@ -117,7 +139,7 @@ static unsigned enc_digits(unsigned v, int n) { unsigned r = 0; for (int i = 0; 
 
 /* ---- what one reception carries ---------------------------------------- */
 
-enum { K_VPS, K_8301, K_8302, K_WSS, K_TTX, K_EMPTY, K_XNAME, K_XCALL };
+enum { K_VPS, K_8301, K_8302, K_WSS, K_TTX, K_EMPTY, K_XNAME, K_XCALL, K_GAP, K_IDLE40 };
 enum { CAR_VPS, CAR_8301, CAR_8302, NCAR };
 static const char *CARN[NCAR] = { "VPS", "8/30-1", "8/30-2" };
 enum { DMG_NONE, DMG_SINGLE, DMG_DOUBLE };    /* 8/30-2: corrected / uncorrectable Hamming error; XDS: DOUBLE = bad checksum */
@@ -259,7 +281,7 @@ static int name_matches(const signed char *got, const char *want)
 struct evrec { int type; vbi_network net; vbi_program_id pid; vbi_local_time lt; vbi_aspect_ratio asp; };
 #define MAXLOG 24
 static struct evrec LOG[MAXLOG]; static int nlog, log_overflow;
-static struct { vbi_decoder *vbi; double t; } D;
+static struct { vbi_decoder *vbi; double t; int gap_pending; } D;
 
 #define EVMASK (VBI_EVENT_NETWORK | VBI_EVENT_NETWORK_ID | VBI_EVENT_PROG_ID | VBI_EVENT_LOCAL_TIME | VBI_EVENT_ASPECT | VBI_EVENT_TTX_PAGE)
 
@@ -282,10 +304,10 @@ static void dec_new(void)
 {
         D.vbi = vbi_decoder_new();
         if (!D.vbi || !vbi_event_handler_register(D.vbi, EVMASK, on_event, NULL)) { fprintf(stderr, "C13: cannot create decoder\n"); exit(42); }
-        D.t = 1000.0;
+        D.t = 1000.0; D.gap_pending = 0;
 }
 static void dec_delete(void) { vbi_decoder_delete(D.vbi); D.vbi = NULL; }
-static void frame(vbi_sliced *s, int n) { vbi_decode(D.vbi, s, n, D.t); D.t += 0.04; }
+static void frame(vbi_sliced *s, int n);        /* defined after the reference model: it tracks the channel-switch countdown */
 
 #define TTX_PGNO 0x201
 static void ttx_packet(vbi_sliced *s, int mag, int packet)
@@ -337,7 +359,7 @@ static void feed_xds(int type, const char *str, int bad_checksum)
 /* ======================================================================== */
 /* reference model + audit                                                   */
 
-struct ref_car { int have; unsigned val; int rep, announced, disturbed, have_conf; unsigned conf; };
+struct ref_car { int have; unsigned val; int rep, announced, other_since, have_conf; unsigned conf; };
 static struct {
         struct ref_car car[NCAR];
         unsigned ident;
@@ -348,7 +370,10 @@ static struct {
         int xn_have; char xn[36]; int xn_rep, x_announced;
         int xc_have; char xc[36];
         int xi_have; char xi_name[36], xi_key[36];
+        /* channel-switch countdown (vbi_decode): armed by a timestamp gap, 40 regular frames */
+        int started, cd, gap_seen, expired, id_under_cd;
 } R;
+static int frame_viol;
 
 static const char *ctx_desc = "";          /* flat phases: what is being fed */
 static const uint8_t *ctx_hist; static int ctx_n; static const char *(*ctx_letter)(int, void *); static void *ctx_arg;
@@ -356,7 +381,7 @@ static uint64_t n_events, n_receptions;
 static unsigned outcomes_seen;
 
 enum { O_FIRST_ID, O_CHANGE_DROP, O_DEVIATION_KEPT, O_UNKNOWN_ID, O_WSS_ANNOUNCED, O_WSS_BADPAR_SILENT, O_WSS_SAME_SILENT, O_REVOKE, O_VPS_PID, O_VPS_PID_SINGLE_SILENT,
-       O_8302_PID, O_LOCAL_TIME, O_REJECTED_SILENT, O_CORRECTED_SAME, O_SECOND_CARRIER_ID, O_XDS_FIRST, O_XDS_CHANGE, O_XDS_CALL_REFINES, O_REANNOUNCE_AFTER_DEVIATION, O_N };
+       O_8302_PID, O_LOCAL_TIME, O_REJECTED_SILENT, O_CORRECTED_SAME, O_SECOND_CARRIER_ID, O_XDS_FIRST, O_XDS_CHANGE, O_XDS_CALL_REFINES, O_REANNOUNCE_AFTER_DEVIATION, O_ANON_RESET, O_ANON_AFTER_FIRST_ID, O_GAP_DISARMED, O_N };
 static const char *OUTN[O_N] = {
         "first identification: one NETWORK + NETWORK_ID on the repeat, pages kept",
         "station change: one NETWORK on the repeat, pages of the old station dropped",
@@ -377,6 +402,9 @@ static const char *OUTN[O_N] = {
         "XDS: station change, pages dropped",
         "XDS: call letters refine the identification",
         "XDS: same station confirmed again after a deviating reception or under a new network name (NETWORK_ID only)",
+        "timestamp gap + 40 regular frames without an identified station change: one anonymous reset (NETWORK nuid 0 if a station was identified, pages dropped)",
+        "station identified for the first time after a timestamp gap: countdown not disarmed, anonymous reset 40 frames later (accepted as documented frame-drop behaviour)",
+        "station change after a timestamp gap disarms the countdown: 40 regular frames later nothing happens",
 };
 static void outcome(int o) { if (!(outcomes_seen & (1u << o))) { outcomes_seen |= 1u << o; mc_outcome("%s", OUTN[o]); } }
 
@@ -423,6 +451,16 @@ static int bad(const char *key, const char *fmt, ...)
         return 1;
 }
 
+/* "since its last announcement": or since the start of the history when it was never announced; CNI carriers: VPS, 8/30-1, 8/30-2 */
+#define CLS_MIXED  "another CNI carrier received since this carrier's last announcement"
+#define CLS_SINGLE "single carrier since its last announcement"
+static const char *ck(const char *base, const char *cls)
+{
+        static char b[2][320]; static int k; char *o = b[k++ & 1];
+        snprintf(o, sizeof b[0], "%s [%s]", base, cls);
+        return o;
+}
+
 static int count_type(int type) { int n = 0; for (int i = 0; i < nlog; i++) n += LOG[i].type == type; return n; }
 static int count_other(int allowed) { int n = 0; for (int i = 0; i < nlog; i++) n += !(LOG[i].type & allowed); return n; }
 
@@ -449,13 +487,60 @@ static void ref_station_reset(void)
         R.asp_have = 0; R.wss_have = 0; R.wss_rep = 0;
 }
 
+static int net_all_zero(const vbi_network *n)
+{
+        return n->nuid == 0 && n->name[0] == 0 && n->call[0] == 0 && n->cni_vps == 0 && n->cni_8301 == 0 && n->cni_8302 == 0;
+}
+static int find_anonymous(void) { for (int i = 0; i < nlog; i++) if (LOG[i].type == VBI_EVENT_NETWORK && net_all_zero(&LOG[i].net)) return 1; return 0; }
+#define KEY_ANON "NETWORK event with nuid 0 and no identifier although no channel-switch countdown is pending"
+static int bad_anonymous(const char *what)
+{
+        return bad(R.gap_seen ? KEY_ANON " [a timestamp gap precedes in the history]" : KEY_ANON " [no timestamp gap in the history]", "%s: identified station %u, reference countdown %d, decoder chswcd %d", what, R.ident, R.cd, D.vbi->chswcd);
+}
+
+/* One vbi_decode() call.  Reference model of the documented channel-switch detection: a timestamp
+ * step outside 25..50 ms arms a countdown of 40 regular frames (if none is running; the very first frame
+ * has no predecessor); an identified station change (vbi_chsw_reset with an id) ends it; when it runs
+ * out the decoder assumes an unidentified channel switch: one NETWORK event with an all-zero
+ * vbi_network if a station was identified, the blank ASPECT if one was announced, pages dropped,
+ * everything about the old station forgotten.  These events are audited and removed from the log here,
+ * the caller audits what the lines of the frame raised. */
+static void frame(vbi_sliced *s, int n)
+{
+        int gap = D.gap_pending, expire = 0, l0 = nlog;
+        D.gap_pending = 0;
+        if (gap) D.t += 1.0;
+        if (!R.started) R.started = 1;
+        else if (gap) { if (R.cd == 0) R.cd = 40; }
+        else if (R.cd > 0 && --R.cd == 0) expire = 1;
+        vbi_decode(D.vbi, s, n, D.t); D.t += 0.04;
+        if (!expire || frame_viol) return;
+        int k = l0;
+        if (R.ident) {
+                if (!(k < nlog && LOG[k].type == VBI_EVENT_NETWORK && net_all_zero(&LOG[k].net))) { frame_viol = bad("channel-switch countdown ran out without the anonymous NETWORK event", "identified station %u", R.ident); return; }
+                k++;
+        }
+        if (R.asp_have && k < nlog && LOG[k].type == VBI_EVENT_ASPECT) {
+                static const vbi_aspect_ratio blank = { 23, 310, 1.0, 0, VBI_SUBT_UNKNOWN };
+                if (aspect_eq(&LOG[k].asp, &blank)) k++;
+        }
+        memmove(&LOG[l0], &LOG[k], (nlog - k) * sizeof LOG[0]); nlog -= k - l0;
+        if (n != 3 && page_cached()) { frame_viol = bad("pages still cached after the channel-switch countdown ran out", "identified station %u", R.ident); return; }
+        if (R.ident) outcome(R.id_under_cd ? O_ANON_AFTER_FIRST_ID : O_ANON_RESET);
+        R.ident = 0; R.expired = 1; R.id_under_cd = 0;
+        for (int c = 0; c < NCAR; c++) { int os = R.car[c].other_since; memset(&R.car[c], 0, sizeof R.car[c]); R.car[c].other_since = os; }
+        ref_station_reset();
+}
+
 /* one PAL / WSS / Teletext reception: feed and audit.  1 = violation reported */
 static int pal_feed(const struct rx *r)
 {
         vbi_sliced sl;
         int cached_before = page_cached();
-        nlog = 0; log_overflow = 0;
+        nlog = 0; log_overflow = 0; frame_viol = 0; R.expired = 0;
+        if (r->kind == K_GAP) { D.gap_pending = 1; R.gap_seen = 1; return 0; }     /* the next frame carries a timestamp jump of +1 s */
         switch (r->kind) {
+        case K_IDLE40: for (int i = 0; i < 45 && !frame_viol; i++) frame(NULL, 0); break;
         case K_VPS:  build_vps(&sl, r); frame(&sl, 1); break;
         case K_8301: build_8301(&sl, r); frame(&sl, 1); break;
         case K_8302: build_8302(&sl, r); frame(&sl, 1); break;
@@ -466,12 +551,17 @@ static int pal_feed(const struct rx *r)
         int cached_after = page_cached();
         n_receptions++; n_events += nlog;
         if (log_overflow) return bad("event storm: more than 24 events for one reception", "%s", r->name);
+        if (frame_viol) return 1;
+        if (R.expired) cached_before = 0;          /* the reset precedes the lines of its frame */
 
-        if (r->kind == K_TTX || r->kind == K_EMPTY) {
+        if (r->kind == K_TTX || r->kind == K_EMPTY || r->kind == K_IDLE40) {
+                if (find_anonymous()) return bad_anonymous(r->name);
                 if (nlog) return bad("event without a reception that carries it", "%s", r->name);
-                if (r->kind == K_EMPTY && cached_after != cached_before) return bad("cache cleared although the identified station did not change", "empty frame");
+                if (r->kind != K_TTX && cached_after != cached_before) return bad("cache cleared although the identified station did not change", "%s", r->name);
+                if (r->kind == K_IDLE40 && R.gap_seen && !R.expired && R.cd == 0 && R.ident) outcome(O_GAP_DISARMED);
                 return 0;
         }
+        if (r->kind == K_WSS && find_anonymous()) return bad_anonymous(r->name);
 
         if (r->kind == K_WSS) {
                 if (count_other(VBI_EVENT_ASPECT)) return bad("unexpected event type for a WSS line", "%s", r->name);
@@ -504,11 +594,13 @@ static int pal_feed(const struct rx *r)
         }
         struct ref_car *rc = &R.car[c];
         unsigned v = r->cni;
+        /* cause class of a violation, from the history alone: was any other CNI carrier received since this
+         * carrier's last announcement (or since the start)?  Only then can the decoder's shared repeat counter
+         * (network.cycle) and the once-received CNIs of the other carriers in vbi_network play a part. */
+        const char *cls = rc->other_since ? CLS_MIXED : CLS_SINGLE;
+        for (int d = 0; d < NCAR; d++) if (d != c) R.car[d].other_since = 1;
         if (rc->have && rc->val == v) { if (rc->rep < 3) rc->rep++; if (r->damage == DMG_SINGLE) outcome(O_CORRECTED_SAME); }
-        else {
-                rc->have = 1; rc->val = v; rc->rep = 1; rc->announced = 0;
-                for (int d = 0; d < NCAR; d++) if (d != c) R.car[d].disturbed = 1;
-        }
+        else { rc->have = 1; rc->val = v; rc->rep = 1; rc->announced = 0; }
         if (rc->rep >= 2) { rc->have_conf = 1; rc->conf = v; }
 
         int allowed = VBI_EVENT_NETWORK | VBI_EVENT_NETWORK_ID | VBI_EVENT_ASPECT | (c == CAR_8301 ? VBI_EVENT_LOCAL_TIME : VBI_EVENT_PROG_ID);
@@ -517,13 +609,16 @@ static int pal_feed(const struct rx *r)
         int nPID = count_type(VBI_EVENT_PROG_ID), nLT = count_type(VBI_EVENT_LOCAL_TIME);
         struct entset es; ref_lookup(c, v, &es);
 
-        if (nNET > 1) return bad("more than one NETWORK event for one reception", "%s (%s)", r->name, es.n ? "station known to the table" : "CNI not in the table");
+        /* an all-zero NETWORK can only come from vbi_chsw_reset(vbi, 0); a CNI which is not in the
+         * table takes that path too (known finding, keyed below) */
+        if (find_anonymous() && es.n) return bad_anonymous(r->name);
+        if (nNET > 1) return bad(es.n ? "more than one NETWORK event for one reception [confirmed CNI is a table station]"
+                                      : "more than one NETWORK event for one reception [confirmed CNI is not in the station table (nuid 0)]", "%s on %s", r->name, CARN[c]);
         if (nNID > 1) return bad("more than one NETWORK_ID event for one reception", "%s", r->name);
-        if ((nNET || nNID) && rc->rep < 2) return bad("identifier announced on its first reception", "%s on %s", r->name, CARN[c]);
+        if ((nNET || nNID) && rc->rep < 2) return bad(ck("identifier announced on its first reception", cls), "%s on %s", r->name, CARN[c]);
 
         if (nNID && rc->announced)
-                return bad(rc->disturbed ? "identifier announced again while the same value keeps arriving, after a first reception on another carrier"
-                                         : "identifier announced again while the same value keeps arriving", "%s on %s", r->name, CARN[c]);
+                return bad(ck("identifier announced again while the same value keeps arriving", cls), "%s on %s", r->name, CARN[c]);
         unsigned sid = es.n ? (unsigned) es.e[0]->id : 0;
         for (int i = 0; i < nlog; i++) {
                 struct evrec *e = &LOG[i];
@@ -541,14 +636,14 @@ static int pal_feed(const struct rx *r)
                 for (int d = 0; d < NCAR; d++) {
                         if (d == c || f[d] == 0) continue;
                         if (!(R.car[d].have_conf && R.car[d].conf == f[d]))
-                                return bad("event carries an identifier of another carrier that was received only once", "%s raised the event, its %s field is %x", r->name, CARN[d], f[d]);
+                                return bad(ck("event carries an identifier of another carrier that was received only once", cls), "%s raised the event, its %s field is %x", r->name, CARN[d], f[d]);
                 }
         }
-        if (nNID) { rc->announced = 1; rc->disturbed = 0; }
+        if (nNID) { rc->announced = 1; rc->other_since = 0; }
         int legit = rc->rep >= 2 && sid != R.ident;
         if (nNET && !legit) return bad("NETWORK event although the identified station did not change", "%s: identified station %u", r->name, R.ident);
         if (!nNET && rc->rep == 2 && v != 0 && sid != 0 && sid != R.ident)
-                return bad("confirmed station change not announced", "%s confirmed on %s: station %u '%s', identified so far: %u", r->name, CARN[c], sid, es.e[0]->name, R.ident);
+                return bad(ck("confirmed station change not announced", cls), "%s confirmed on %s: station %u '%s', identified so far: %u", r->name, CARN[c], sid, es.e[0]->name, R.ident);
         int changed = nNET == 1, had_ident = R.ident != 0;
         if (nASP) {
                 static const vbi_aspect_ratio blank = { 23, 310, 1.0, 0, VBI_SUBT_UNKNOWN };
@@ -561,6 +656,8 @@ static int pal_feed(const struct rx *r)
         if (audit_cache(changed, had_ident, cached_before, cached_after, r->name)) return 1;
         if (changed) {
                 if (!had_ident) outcome(O_FIRST_ID);
+                if (had_ident) { R.cd = 0; R.id_under_cd = 0; }   /* vbi_chsw_reset() with an id ends the countdown */
+                else if (R.cd > 0) R.id_under_cd = 1;
                 R.ident = sid;
                 if (had_ident) ref_station_reset();
         } else if (nNID) {
@@ -574,7 +671,7 @@ static int pal_feed(const struct rx *r)
                 if (nPID > 1) return bad("more than one PROG_ID event for one reception", "%s", r->name);
                 if (nPID) {
                         const vbi_program_id *p = NULL; for (int i = 0; i < nlog; i++) if (LOG[i].type == VBI_EVENT_PROG_ID) p = &LOG[i].pid;
-                        if (!dbl) return bad("VPS PROG_ID announced without a second identical reception", "%s", r->name);
+                        if (!dbl) return bad(ck("VPS PROG_ID announced without a second identical reception", cls), "%s", r->name);
                         if (p->channel != VBI_PID_CHANNEL_VPS || p->cni_type != VBI_CNI_TYPE_VPS || p->cni != r->cni || p->pil != r->pil || p->pcs_audio != (int) r->pcs || p->pty != r->pty || p->luf || p->prf || !p->mi)
                                 return bad("PROG_ID event does not carry the transmitted values", "%s", r->name);
                         outcome(O_VPS_PID);
@@ -606,7 +703,7 @@ static int pal_feed(const struct rx *r)
 static int xds_feed(const struct rx *r)
 {
         int cached_before = page_cached();
-        nlog = 0; log_overflow = 0;
+        nlog = 0; log_overflow = 0; frame_viol = 0; R.expired = 0;
         if (r->kind == K_TTX) feed_ttx_page();
         else if (r->kind == K_EMPTY) frame(NULL, 0);
         else feed_xds(r->kind == K_XNAME ? 1 : 2, r->str, r->damage == DMG_DOUBLE);
@@ -625,9 +722,9 @@ static int xds_feed(const struct rx *r)
         else { R.xn_have = 1; snprintf(R.xn, sizeof R.xn, "%s", r->str); R.xn_rep = 1; R.x_announced = 0; }
         if (count_other(VBI_EVENT_NETWORK | VBI_EVENT_NETWORK_ID)) return bad("unexpected event type for this carrier", "%s", r->name);
         int nNET = count_type(VBI_EVENT_NETWORK), nNID = count_type(VBI_EVENT_NETWORK_ID);
-        if (nNET > 1) return bad("more than one NETWORK event for one reception", "%s (XDS)", r->name);
+        if (nNET > 1) return bad("more than one NETWORK event for one reception [XDS]", "%s", r->name);
         if (nNID > 1) return bad("more than one NETWORK_ID event for one reception", "%s", r->name);
-        if ((nNET || nNID) && R.xn_rep < 2) return bad("identifier announced on its first reception", "%s on XDS", r->name);
+        if ((nNET || nNID) && R.xn_rep < 2) return bad("identifier announced on its first reception [XDS]", "%s on XDS", r->name);
         const char *call = R.xc_have ? R.xc : "";
         const char *idkey = R.xc_have ? R.xc : r->str;     /* the station is its call letters when it sends any, else its network name */
         for (int i = 0; i < nlog; i++) {
@@ -638,7 +735,7 @@ static int xds_feed(const struct rx *r)
                 if (e->net.cni_vps || e->net.cni_8301 || e->net.cni_8302) return bad("network event carries CNIs never transmitted", "%s", r->name);
         }
         if (nNID) {
-                if (R.x_announced) return bad("identifier announced again while the same value keeps arriving", "%s on XDS", r->name);
+                if (R.x_announced) return bad("identifier announced again while the same value keeps arriving [XDS]", "%s on XDS", r->name);
                 R.x_announced = 1;
         }
         int same_key = R.xi_have && !strcmp(R.xi_key, idkey), same_name = R.xi_have && !strcmp(R.xi_name, r->str);
@@ -647,7 +744,7 @@ static int xds_feed(const struct rx *r)
         int legit = R.xn_rep >= 2 && !(same_key && same_name);
         if (nNET && !legit) return bad("NETWORK event although the identified XDS station did not change", "%s: XDS station '%s' (name '%s') already identified", r->name, R.xi_key, R.xi_name);
         if (!nNET && R.xn_rep == 2 && !same_key)
-                return bad("confirmed station change not announced", "%s confirmed on XDS, station '%s', identified so far '%s'", r->name, idkey, R.xi_have ? R.xi_key : "");
+                return bad("confirmed station change not announced [XDS]", "%s confirmed on XDS, station '%s', identified so far '%s'", r->name, idkey, R.xi_have ? R.xi_key : "");
         int changed = nNET == 1, had_ident = R.xi_have;
         if (audit_cache(changed, had_ident, cached_before, cached_after, r->name)) return 1;
         if (changed) {
@@ -694,6 +791,8 @@ static const struct rx PAL[] = {
         { K_WSS, .wss = WSS_BAD, .name = "WSS(16:9 film, bad parity)" },
         { K_TTX, .name = "TTX(page 201)" },
         { K_EMPTY, .name = "empty frame" },
+        { K_GAP, .name = "gap(next frame +1 s)" },
+        { K_IDLE40, .name = "45 regular empty frames" },
 };
 enum { NPAL = sizeof PAL / sizeof PAL[0] };
 
@@ -714,6 +813,7 @@ static const struct cfg CFGS[] = {
         { "pal-all", 0, 18, { 0,1,2,3,4,5,6,7,8,9,10,11,12,13,14,15,16,17 }, { 5, 8 } },
         { "pal-cni", 0, 15, { 0,1,2,3,4,5,6,7,8,9,10,11,12,16,17 },          { 7, 16 } },
         { "pal-wss", 0, 7,  { 0,2,13,14,15,16,17 },                          { 18, 18 } },
+        { "pal-gap", 0, 5,  { 0,2,18,19,16 },                                { 10, 16 } },
         { "xds",     1, 8,  { 0,1,2,3,4,5,6,7 },                             { 12, 12 } },
 };
 
@@ -751,13 +851,13 @@ static void state_hash(uint64_t out[2])
         /* reference model, member by member (no padding) */
         for (int c = 0; c < NCAR; c++) {
                 const struct ref_car *rc = &R.car[c];
-                int v[7] = { rc->have, (int) rc->val, rc->rep, rc->announced, rc->announced ? rc->disturbed : 0, rc->have_conf, (int) rc->conf };
+                int v[7] = { rc->have, (int) rc->val, rc->rep, rc->announced, rc->other_since, rc->have_conf, (int) rc->conf };
                 mc_hash_add(&h, v, sizeof v);
         }
         int w[12] = { (int) R.ident, R.vps_prev_have, (int) R.vps_prev[0], (int) R.vps_prev[1], (int) R.vps_prev[2], (int) R.vps_prev[3],
                       R.wss_have, (int) R.wss_word, R.wss_rep, R.asp_have, R.asp_have ? R.asp.first_line * 1000 + R.asp.last_line : 0, R.asp_have ? R.asp.film_mode * 8 + R.asp.open_subtitles : 0 };
         mc_hash_add(&h, w, sizeof w);
-        int x[5] = { R.xn_have, R.xn_rep, R.x_announced, R.xc_have, R.xi_have };
+        int x[9] = { R.xn_have, R.xn_rep, R.x_announced, R.xc_have, R.xi_have, R.started, R.cd, R.gap_seen, D.gap_pending };
         mc_hash_add(&h, x, sizeof x);
         mc_hash_add(&h, R.xn, sizeof R.xn); mc_hash_add(&h, R.xc, sizeof R.xc); mc_hash_add(&h, R.xi_name, sizeof R.xi_name); mc_hash_add(&h, R.xi_key, sizeof R.xi_key);
         out[0] = h.a; out[1] = h.b;
@@ -810,7 +910,7 @@ static int flat_pair(const struct rx *r, int times, const char *desc)
                 struct entset es; ref_lookup(c, r->cni, &es);
                 if (k == 1 && r->cni != 0) {
                         if (nNID != 1) viol = bad("identifier received twice on a fresh decoder not announced", "%s", desc);
-                        else if (nNET != (es.n ? 1 : 0)) viol = bad(es.n ? "confirmed station change not announced" : "NETWORK event although the identified station did not change", "%s", desc);
+                        else if (nNET != (es.n ? 1 : 0)) viol = bad(es.n ? "confirmed station change not announced [" CLS_SINGLE "]" : "NETWORK event although the identified station did not change", "%s", desc);
                         else if (c == CAR_VPS && count_type(VBI_EVENT_PROG_ID) != 1) viol = bad("VPS programme id received twice not announced", "%s", desc);
                 }
                 if (!viol && c == CAR_8301 && count_type(VBI_EVENT_LOCAL_TIME) != 1) viol = bad("8/30-1 local time not announced", "%s", desc);
@@ -890,7 +990,7 @@ static void flat_pil(uint64_t chunk, void *arg)
         for (unsigned pil = (chunk << 10) + (chunk % pil_stride); pil < ((chunk + 1) << 10); pil += pil_stride, k++) {
                 struct rx v = { K_VPS, (k & 1) ? CNI_B_VPS : CNI_A_VPS, pil, (pil >> 1) & 3, (pil >> 4) & 0xFF, .name = "VPS PIL sweep" };
                 if (pal_feed(&v)) goto out;
-                if (nlog) { bad("identifier announced on its first reception", "VPS pil=%05x", pil); goto out; }
+                if (nlog) { bad("identifier announced on its first reception [" CLS_SINGLE "]", "VPS pil=%05x", pil); goto out; }
                 if (pal_feed(&v)) goto out;
                 if (count_type(VBI_EVENT_PROG_ID) != 1) { bad("VPS programme id received twice not announced", "pil=%05x", pil); goto out; }
                 n += 2;
@@ -947,7 +1047,7 @@ int main(int argc, char **argv)
         mc_meta("rule", "a history is a sequence of receptions (VPS line, 8/30 format 1 / format 2 packet, WSS 625 line, XDS channel-information packet on line 284, a corrupted copy, a rejected copy, a Teletext page, an empty frame); every history within the depth is replayed on a fresh decoder with all five event types logged per reception and audited; states are canonical (vbi_network, cycle, vps_pid, WSS last/rep, aspect, chswcd, page cached, reference model); a history is non-trivial when at least one event was raised; sweeps: every CNI of each carrier twice, every WSS word five times, every PIL, each on the real decoder with the announcement demanded");
         mc_meta("assume", "vbi_cni_table is data: names and ids are looked up by an own scan (VPS: cni4, 8/30-1: cni1, 8/30-2: cni2, else cni4 of the low 12 bits when those are non-zero)");
         mc_meta("assume", "VPS/Teletext and XDS identifiers are not mixed in one history (documented at VBI_EVENT_NETWORK as unsupported)");
-        mc_meta("assume", "frames arrive every 0.04 s (no frame-drop channel-switch countdown); CNI 0xDC3/0x0DC3 skipped in sweeps (TR 101 231 rewrite, see C12)");
+        mc_meta("assume", "frames arrive every 0.04 s except for the gap letter of phase pal-gap (+1 s); CNI 0xDC3/0x0DC3 skipped in sweeps (TR 101 231 rewrite, see C12)");
         mc_meta("assume", "repeated PROG_ID / LOCAL_TIME with unchanged value accepted (decoder documents it as presence signal); XDS call letters not required to be debounced (checksum protected)");
         int tier = mc_tier == MC_THOROUGH;
         pil_stride = tier ? 1 : 16;
